@@ -25,3 +25,7 @@ HX double h_measure(int k, const double* x, int n, double c) {
     if (k == 1) return sinad(a);
     return thd(a, 3).value;
 }
+// rng(seed); draw (y1); interleaved other draws; rng(seed); draw again (y2) - all in one thread / process
+HX int h_replay(int seed, int k, int n, int lo, int hi, double* y1, double* y2) {
+    H_TRY double t[8]; rng(seed); h_gen(k, n, lo, hi, y1); h_gen((k + 1) % 7, 5, 1, 6, t); h_gen((k + 3) % 7, 3, 1, 6, t); rng(seed); return h_gen(k, n, lo, hi, y2); H_END
+}
